@@ -35,10 +35,10 @@ pub fn wr<T: Tk>(t: u32, x: &mut T) {
     let v = x.obs().v;
     x.set(((v as u64 * 3 + t as u64) % M as u64) as u32);
 }
-fn begin(t: u32) {
+pub fn begin(t: u32) {
     shim::note("task_begin", t);
 }
-fn end(t: u32) {
+pub fn end(t: u32) {
     shim::note("task_end", t);
 }
 
@@ -49,21 +49,23 @@ pub struct Ctx {
     pub ids: Vec<Identifier>,
 }
 
+#[macro_export]
 macro_rules! kind {
     ($name:ident) => {
-        pub struct $name(pub Ctx);
+        pub struct $name(pub $crate::sched::Ctx);
         impl $name {
-            pub fn new(t: u32, ids: &[Identifier]) -> Self {
-                $name(Ctx { t, ids: ids.to_vec() })
+            pub fn new(t: u32, ids: &[brood::entity::Identifier]) -> Self {
+                $name($crate::sched::Ctx { t, ids: ids.to_vec() })
             }
         }
     };
 }
 
+#[macro_export]
 macro_rules! system {
     ($name:ident, views = $views:ty, filter = $filter:ty, res = $res:ty, entry = $entry:ty,
      |$t:ident, $ids:ident, $q:ident| $body:block) => {
-        kind!($name);
+        $crate::kind!($name);
         impl System for $name {
             type Views<'a> = $views;
             type Filter = $filter;
@@ -79,18 +81,19 @@ macro_rules! system {
                 let $t = self.0.t;
                 #[allow(unused_variables)]
                 let $ids = &self.0.ids;
-                begin($t);
+                $crate::sched::begin($t);
                 $body
-                end($t);
+                $crate::sched::end($t);
             }
         }
     };
 }
 
+#[macro_export]
 macro_rules! par_system {
     ($name:ident, views = $views:ty, filter = $filter:ty, res = $res:ty, entry = $entry:ty,
      |$t:ident, $ids:ident, $q:ident| $body:block) => {
-        kind!($name);
+        $crate::kind!($name);
         impl ParSystem for $name {
             type Views<'a> = $views;
             type Filter = $filter;
@@ -106,90 +109,15 @@ macro_rules! par_system {
                 let $t = self.0.t;
                 #[allow(unused_variables)]
                 let $ids = &self.0.ids;
-                begin($t);
+                $crate::sched::begin($t);
                 $body
-                end($t);
+                $crate::sched::end($t);
             }
         }
     };
 }
 
-// ---- the alphabet -----------------------------------------------------------------------------
-system!(Sm, views = Views!(&'a mut S), filter = filter::None, res = Views!(), entry = Views!(),
-    |t, ids, q| { for result!(s) in q.iter { wr(t, s); } });
-system!(Sr, views = Views!(&'a S), filter = filter::None, res = Views!(), entry = Views!(),
-    |t, ids, q| { for result!(s) in q.iter { rd(t, s); } });
-system!(Wm, views = Views!(&'a mut W), filter = filter::None, res = Views!(), entry = Views!(),
-    |t, ids, q| { for result!(w) in q.iter { wr(t, w); } });
-system!(Wr, views = Views!(&'a W), filter = filter::None, res = Views!(), entry = Views!(),
-    |t, ids, q| { for result!(w) in q.iter { rd(t, w); } });
-system!(SmFh, views = Views!(&'a mut S), filter = filter::Has<H>, res = Views!(), entry = Views!(),
-    |t, ids, q| { for result!(s) in q.iter { wr(t, s); } });
-system!(SmNh, views = Views!(&'a mut S), filter = filter::Not<filter::Has<H>>, res = Views!(), entry = Views!(),
-    |t, ids, q| { for result!(s) in q.iter { wr(t, s); } });
-system!(SoWr, views = Views!(Option<&'a mut S>, &'a W), filter = filter::None, res = Views!(), entry = Views!(),
-    |t, ids, q| { for result!(s, w) in q.iter { rd(t, w); if let Some(s) = s { wr(t, s); } } });
-system!(IdSrHo, views = Views!(entity::Identifier, &'a S, Option<&'a H>), filter = filter::None, res = Views!(), entry = Views!(),
-    |t, ids, q| { for result!(_id, s, h) in q.iter { rd(t, s); if let Some(h) = h { rd(t, h); } } });
-system!(RAm, views = Views!(), filter = filter::None, res = Views!(&'a mut RA), entry = Views!(),
-    |t, ids, q| { let result!(ra) = q.resources; wr(t, ra); });
-system!(RArWm, views = Views!(&'a mut W), filter = filter::None, res = Views!(&'a RA), entry = Views!(),
-    |t, ids, q| { let result!(ra) = q.resources; rd(t, ra); for result!(w) in q.iter { wr(t, w); } });
-system!(RBmRAr, views = Views!(), filter = filter::None, res = Views!(&'a mut RB, &'a RA), entry = Views!(),
-    |t, ids, q| { let result!(rb, ra) = q.resources; rd(t, ra); wr(t, rb); });
-system!(ESm, views = Views!(), filter = filter::None, res = Views!(), entry = Views!(&'a mut S),
-    |t, ids, q| {
-        for id in ids.iter() {
-            if let Some(mut e) = q.entries.entry(*id) {
-                if let Some(result!(s)) = e.query(Query::<Views!(&mut S)>::new()) { wr(t, s); }
-            }
-        }
-    });
-system!(ESrWm, views = Views!(&'a mut W), filter = filter::None, res = Views!(), entry = Views!(&'a S),
-    |t, ids, q| {
-        for result!(w) in q.iter { wr(t, w); }
-        for id in ids.iter() {
-            if let Some(mut e) = q.entries.entry(*id) {
-                if let Some(result!(s)) = e.query(Query::<Views!(&S)>::new()) { rd(t, s); }
-            }
-        }
-    });
-system!(HmFw, views = Views!(&'a mut H), filter = filter::Has<W>, res = Views!(), entry = Views!(),
-    |t, ids, q| { for result!(h) in q.iter { wr(t, h); } });
-par_system!(PSm, views = Views!(&'a mut S), filter = filter::None, res = Views!(), entry = Views!(),
-    |t, ids, q| { q.iter.for_each(|result!(s)| wr(t, s)); });
-par_system!(PWrSr, views = Views!(&'a W, &'a S), filter = filter::None, res = Views!(), entry = Views!(),
-    |t, ids, q| { q.iter.for_each(|result!(w, s)| { rd(t, w); rd(t, s); }); });
-par_system!(PHoWm, views = Views!(Option<&'a mut H>, &'a mut W), filter = filter::None, res = Views!(&'a RB), entry = Views!(),
-    |t, ids, q| { let result!(rb) = q.resources; rd(t, rb); q.iter.for_each(|result!(h, w)| { wr(t, w); if let Some(h) = h { wr(t, h); } }); });
-
-/// Descriptors of the alphabet for the specification (spec/Access.tla format).
-pub fn descriptor(kind: &str) -> Value {
-    let v = |s: &str, w: &str, h: &str| json!({"S": s, "W": w, "H": h});
-    let r = |a: &str, b: &str| json!({"RA": a, "RB": b});
-    let none = || json!(["none"]);
-    let (par, id, views, filter, entry, res) = match kind {
-        "Sm" => (false, false, v("mut", "none", "none"), none(), v("none", "none", "none"), r("none", "none")),
-        "Sr" => (false, false, v("ref", "none", "none"), none(), v("none", "none", "none"), r("none", "none")),
-        "Wm" => (false, false, v("none", "mut", "none"), none(), v("none", "none", "none"), r("none", "none")),
-        "Wr" => (false, false, v("none", "ref", "none"), none(), v("none", "none", "none"), r("none", "none")),
-        "SmFh" => (false, false, v("mut", "none", "none"), json!(["has", "H"]), v("none", "none", "none"), r("none", "none")),
-        "SmNh" => (false, false, v("mut", "none", "none"), json!(["not", ["has", "H"]]), v("none", "none", "none"), r("none", "none")),
-        "SoWr" => (false, false, v("optmut", "ref", "none"), none(), v("none", "none", "none"), r("none", "none")),
-        "IdSrHo" => (false, true, v("ref", "none", "optref"), none(), v("none", "none", "none"), r("none", "none")),
-        "RAm" => (false, false, v("none", "none", "none"), none(), v("none", "none", "none"), r("mut", "none")),
-        "RArWm" => (false, false, v("none", "mut", "none"), none(), v("none", "none", "none"), r("ref", "none")),
-        "RBmRAr" => (false, false, v("none", "none", "none"), none(), v("none", "none", "none"), r("ref", "mut")),
-        "ESm" => (false, false, v("none", "none", "none"), none(), v("mut", "none", "none"), r("none", "none")),
-        "ESrWm" => (false, false, v("none", "mut", "none"), none(), v("ref", "none", "none"), r("none", "none")),
-        "HmFw" => (false, false, v("none", "none", "mut"), json!(["has", "W"]), v("none", "none", "none"), r("none", "none")),
-        "PSm" => (true, false, v("mut", "none", "none"), none(), v("none", "none", "none"), r("none", "none")),
-        "PWrSr" => (true, false, v("ref", "ref", "none"), none(), v("none", "none", "none"), r("none", "none")),
-        "PHoWm" => (true, false, v("none", "mut", "optmut"), none(), v("none", "none", "none"), r("none", "ref")),
-        _ => panic!("harness: unknown kind {kind}"),
-    };
-    json!({"k": kind, "par": par, "id": id, "views": views, "filter": filter, "entry": entry, "res": res})
-}
+pub use crate::sched_kinds::*;
 
 // ---- world presets ------------------------------------------------------------------------------
 /// Each preset is a list of entity shapes (bit 0 = S, 1 = W, 2 = H); values are derived from the
